@@ -64,8 +64,9 @@ C11 = dict(
         "c11_request_upgrade": H("quick", "RequestUpgrade", _scalar + "; cut k symbolic", "none"),
         "c11_data_hash_prefix": H("quick", "DataHash scalar prefix, encode side", _scalar, "lists empty; encode side only"),
         "c11_data_seek_prefix": H("quick", "DataSeek scalar prefix, encode side", _scalar, "lists empty; encode side only"),
-        "c11_data_block_prefix": H("quick", "DataBlock scalar prefix + value 0..4 symbolic bytes, encode side", _scalar + "; value length 0..4", "lists empty; encode side only"),
-        "c11_data_upgrade_prefix": H("quick", "DataUpgrade scalar prefix + signature 0..4 bytes, encode side", _scalar + "; signature length 0..4", "lists empty; encode side only"),
+        "c11_data_block_prefix": H("quick", "DataBlock scalar prefix + value 0..4 symbolic bytes, encode side", _scalar + "; value length 0..4", "lists empty; encode side only", timeout=600),
+        "c11_data_upgrade_prefix": H("quick", "DataUpgrade scalar prefix, encode side", _scalar, "lists and signature empty; encode side only"),
+        "c11_data_upgrade_sig": H("quick", "DataUpgrade with signature of symbolic length 0..4, full round trip + symbolic cut", "signature: 0..4 symbolic bytes; cut k symbolic", "start/length concrete; lists empty", timeout=600),
     },
 )
 for msg, counts in (("data_hash", (0, 1, 2)), ("data_seek", (0, 2)), ("data_block", (0, 1, 2)), ("data_upgrade", (0, 1, 2))):
@@ -77,3 +78,24 @@ for msg, counts in (("data_hash", (0, 1, 2)), ("data_seek", (0, 2)), ("data_bloc
             "thorough", "%s full round trip, %d node(s), all prefixes" % (msg, c), "hash bytes (32 per node), value/signature bytes",
             _layout % (c, "every k < n"), rules=[(r"check_layout", 170)], timeout=2400)
 PROPS["C11"] = C11
+
+# --------------------------------------------------------------------------------------------- C01
+C01 = dict(
+    title="Log contents equal an append-only list model, across close and reopen",
+    variant="model",
+    patterns=["c01_"],
+    functions=[
+        "hypercore::oplog::entry::<impl CompactEncoding for Entry|EntryTreeUpgrade|BitfieldUpdate>::{encoded_size,encode,decode}",
+    ],
+    oracle="the value itself (round trip) and the reference entry layout in harness/c_oplog.rs::ref_entry",
+    outside=["entries with more than 2 nodes", "user_data (always empty in this crate)"],
+    harnesses={
+        "c01_entry_clear": H("quick", "clear entry (bitfield only) size/bytes/decode", "drop: bool, start,length: u64 full range", "none"),
+        "c01_entry_append": H("quick", "append entry (nodes+upgrade+bitfield) size/bytes/decode", "2 node hashes, 64 signature bytes", "scalar fields concrete (class boundaries)"),
+        "c01_entry_block_only": H("quick", "block-only proof entry (nodes+bitfield) size/bytes/decode", "2 node hashes", "scalar fields concrete"),
+        "c01_entry_upgrade_nodes": H("quick", "upgrade+nodes entry size/bytes/decode", "1 node hash, 64 signature bytes", "scalar fields concrete"),
+        "c01_entry_upgrade_only": H("quick", "upgrade-only entry size/bytes/decode", "64 signature bytes", "scalar fields concrete (u32/u64 class boundaries)"),
+        "c01_entry_upgrade_scalars_encode": H("quick", "upgrade scalars full range, encode side", "fork, ancestors, length: u64 full range; 64 signature bytes", "encode side only"),
+    },
+)
+PROPS["C01"] = C01
